@@ -66,7 +66,7 @@ def gen_case(seed, idx, tier):
     if mode == 8:
         return gen_interleave(c, rng)
     if mode == 9:
-        return gen_dupkey(c, rng)
+        return gen_dupkey(c, rng) if rng.random() < 0.6 else gen_subgroup(c, rng)
     target = c02.MUTATIONS[(idx // 10) % len(c02.MUTATIONS)]
     prof = dict(PROFILE)
     force = {"differ": "differ", "disjoint": "disjoint", "all_of": "all_of", "two-of": rng.choice(["any_of", "one_of"]),
@@ -216,6 +216,38 @@ def gen_interleave(c, rng):
     return c
 
 
+def gen_subgroup(c, rng):
+    """a sub-group argument (its own handler with -y / -z) with a rule attached - mandatory or a cardinality - defined in one
+    member of a group resp. in the single handler: both must judge every line the same way and store the same values"""
+    rule = rng.choice(["mand", "card=range:2:3", "card=exact:2", "card=max:1", ""])
+    nm = rng.randint(1, 3)
+    owner = rng.randrange(nm)
+    names = ["alpha", "beta", "gamma"][:nm]
+    sg = ("SG %s 0 %s" % (hx("g,group"), rule)).rstrip() + "\nA vi1 %s %s\nA s1 %s %s\nSE\n" % (hx("y"), hx("d"), hx("z,zone"), hx("d"))
+    plain = ["A i0 %s %s\n" % (hx("n,num"), hx("d")), "A b0 %s %s\n" % (hx("a"), hx("d")), "A s0 %s %s mand\n" % (hx("name"), hx("d"))]
+    where = [rng.randrange(nm) for _ in plain]
+    uses = rng.choice([0, 1, 1, 2, 2, 3, 4])
+    words = []
+    extra = [["-a"], ["-n", "5"]]        # each plain argument at most once
+    for u in range(uses):
+        words += [rng.choice(["-g", "--group"]), "-y", str(10 + u)] + (["--zone", "q%d" % u] if (u == 0 and rng.random() < 0.5) else [])
+        if rng.random() < 0.4 and extra:
+            words += extra.pop(rng.randrange(len(extra)))
+    words = (["--name", "x"] + words) if rng.random() < 0.85 else words
+    lim = {"mand": (1, 99), "card=range:2:3": (2, 3), "card=exact:2": (2, 2), "card=max:1": (0, 1), "": (0, 99)}[rule]
+    # a cardinality only speaks about an argument that is used; 'mandatory' about the unused one
+    valid = (lim[0] <= uses <= lim[1] or (uses == 0 and rule != "mand")) and any(w.startswith("--name") for w in words)
+    single = "".join(plain) + sg
+    body = ""
+    for m in range(nm):
+        body += "G %s 0\n" % hx(names[m]) + "".join(p for p, w in zip(plain, where) if w == m) + (sg if m == owner else "")
+    argv = " ".join(hx(w) for w in ["prog"] + words)
+    sid1 = c.add("c08", lambda sid: "S %s single\nF 0\n%sV %s\nR\n" % (sid, single, argv))
+    sid2 = c.add("c08", lambda sid: "S %s group\nGF 0\n%sV %s\nR\n" % (sid, body, argv))
+    c.meta.update(subgroup=(rule, uses, valid, words, sid1, sid2), runs=[], nm=nm)
+    return c
+
+
 def gen_dupkey(c, rng):
     """the same key in two member handlers must be refused"""
     s1, l1 = rng.choice("abc"), rng.choice(["in", "input", "out"])
@@ -302,6 +334,25 @@ def judge(c, results, rep):
         elif not refused:
             rep.viol("dupkey|%s|accepted" % kind, "keys %r and %r accepted in two member handlers" % (k1, k2), [c.scenarios[0][1]])
         rep.distinct(c.scenarios[0][1])
+        return
+    if "subgroup" in c.meta:
+        rule, uses, valid, words, sid1, sid2 = c.meta["subgroup"]
+        r1, r2 = results[sid1], results[sid2]
+        tx = [t for _s, t in c.scenarios]
+        rep.stat("subgroup.rule_%s" % (rule.split("=")[-1].split(":")[0] or "none"))
+        rep.stat("subgroup.line_%s" % ("valid" if valid else "rule-break"))
+        rep.distinct(tx[1])
+        for nme, r in (("single", r1), ("group", r2)):
+            if r.status == "setup":
+                rep.viol("subgroup|setup|%s" % nme, "%s %s" % (r.etype, r.ewhat), tx)
+                return
+            if valid and r.status != "ok":
+                rep.viol("subgroup|%s-rejects-valid" % nme, "rule %r, %d uses: %s %s | argv=%r" % (rule, uses, r.etype, r.ewhat, words), tx)
+            if not valid and r.status == "ok":
+                rep.viol("subgroup|%s-accepts|%s" % (nme, "mandatory" if rule == "mand" else "cardinality" if rule else "mandatory-plain"),
+                         "rule %r on the sub-group argument, %d uses, accepted | argv=%r" % (rule, uses, words), tx)
+        if r1.status == "ok" and r2.status == "ok" and r1.slots != r2.slots:
+            rep.viol("subgroup|values-differ", "single %r | group %r | argv=%r" % (r1.slots, r2.slots, words), tx)
         return
     cfg, exp = c.meta["cfg"], c.meta["exp"]
     texts = dict(c.scenarios)
